@@ -441,8 +441,9 @@ func (x *Exec) native(fr *Frame, st *State, key string, callee *ssa.Function, ar
 		return scalar(rt, App("/", SReal, App("to_real", SReal, x.toMathInt(args[0])), Term{"1000000000.0", SReal})), true, nil
 	case "errors.New", "fmt.Errorf", "github.com/pkg/errors.New", "github.com/pkg/errors.Errorf", "github.com/pkg/errors.Wrap":
 		r := u.FreshVal("err", rt)
-		u.Assume(Neq(r.S[0], IntLit(0)))
-		u.Trust("errors.New / fmt.Errorf return a non-nil error")
+		u.Assume(Eq(r.S[0], u.TypeIDByName("dynamic type of "+key)))
+		u.Assume(Neq(r.S[1], IntLit(0)))
+		u.Trust("errors.New / fmt.Errorf return a non-nil error of their own (unexported) dynamic type")
 		return r, true, nil
 	case "fmt.Sprintf", "fmt.Sprint", "strconv.Itoa", "strconv.FormatInt", "strconv.FormatUint":
 		return u.FreshVal("str", rt), true, nil
@@ -453,6 +454,10 @@ func (x *Exec) native(fr *Frame, st *State, key string, callee *ssa.Function, ar
 		u.Assume(And(u.ILe(u.IntC(0), r.One()), u.ILt(r.One(), args[0].One())))
 		u.Trust("math/rand.Intn(n) returns some r with 0 <= r < n")
 		return r, true, nil
+	}
+	if isLogging(callee) {
+		x.u.Trust("logging calls (zap, log, fmt.Print*) have no effect on program state")
+		return x.u.FreshValOrTuple("log", rt), true, nil
 	}
 	// external function without a contract: the external frame rule
 	if callee.Pkg == nil || !strings.HasPrefix(callee.Pkg.Pkg.Path(), repoMod) {
